@@ -136,10 +136,14 @@ class EventDispatcher:
         if not value:
             return
 
-        # Deplete queue if enabling
-        for event_name, args, kwargs in self._event_queue:
+        # Deplete queue if enabling. Each event is removed from the
+        # queue before being dispatched, so that it is never delivered
+        # twice, even if a callback raises (the remaining events stay
+        # queued, in order) or disables dispatching again (the release
+        # stops, later events are queued after the pending ones).
+        while self._event_queue and self._dispatch_enabled:
+            event_name, args, kwargs = self._event_queue.pop(0)
             self.dispatch(event_name, *args, **kwargs)
-        self._event_queue.clear()
 
     def clear(self):
         """Remove all handlers and pending events.
